@@ -63,6 +63,7 @@ class Prop:
     sizes = {"quick": 300, "thorough": 6000}
     rule = ""
     assumptions = []
+    ready = False         # True once the done-criteria of FRAMEWORK.md are met: only then is the check claimed in MANIFEST.json
     engine = "hypothesis"
     technique = "property-based testing (Hypothesis) against an explicit oracle"
     level_text = ""       # MANIFEST level_claimed.text (defaults to rule)
@@ -163,7 +164,7 @@ class Server:
         self.buf = b""
 
     def start(self):
-        base = os.environ.get("VF_TMP") or os.path.join("/verif", "build", "tmp")
+        base = os.environ.get("VF_TMP") or os.path.join(os.environ.get("VF_BUILD", "/verif/build"), "tmp")
         os.makedirs(base, exist_ok=True)
         fd, self.errpath = tempfile.mkstemp(suffix=".err", dir=base)
         os.close(fd)
@@ -282,13 +283,13 @@ def _stop_servers():
 
 
 def tmpdir():
-    base = os.environ.get("VF_TMP") or os.path.join("/verif", "build", "tmp")
+    base = os.environ.get("VF_TMP") or os.path.join(os.environ.get("VF_BUILD", "/verif/build"), "tmp")
     os.makedirs(base, exist_ok=True)
     return tempfile.mkdtemp(dir=base)
 
 
 def write_tmp(text, suffix=".json"):
-    base = os.environ.get("VF_TMP") or os.path.join("/verif", "build", "tmp")
+    base = os.environ.get("VF_TMP") or os.path.join(os.environ.get("VF_BUILD", "/verif/build"), "tmp")
     os.makedirs(base, exist_ok=True)
     fd, path = tempfile.mkstemp(suffix=suffix, dir=base)
     with os.fdopen(fd, "w") as f:
